@@ -2,7 +2,7 @@
 
 Domain : generated Colang 2 programs (vf/co2.py) extended with variables holding sets, regex objects, nested containers,
          dicts with int/str keys (generated dicts with keys of mixed kinds at any position, in every placement) and references to
-         flows/actions/events; helper flows activated by several flows that end / deactivate in drawn ways; histories H = H1 . cut . H2 with the cut at every
+         flows/actions/events (also references to flows that ended long ago, read through later); helper flows activated by several flows that end / deactivate in drawn ways; histories H = H1 . cut . H2 with the cut at every
          position (enumerated per drawn case up to a bound) and cut in {save/restore, age > 5 s, both}.
 Oracle : differential. Two executions from scratch with identical tie-break choices: A feeds H1.H2 live; B feeds H1, applies
          json_to_state(state_to_json(state)) (which must not raise) and/or advances the (fake) clock by 6 s, then feeds H2.
@@ -22,7 +22,7 @@ CASE_TIMEOUT = 60
 RULE = (
     "program from the co2 grammar; optionally every flow gets a prologue assigning rich variables ($s set, $rx regex, $d dict with an int and "
     "a str key, $n nested containers) and 0-4 statements using them are inserted at drawn positions (send the value, index the dict by its "
-    "int key, match with the regex, start an action with a set argument); history of 2-24 items; up to 3 drawn cut points x mode in "
+    "int key, match with the regex, start an action with a set argument, start an action with a dict variable as argument and match its Finished event through a dict literal); history of 2-24 items; up to 3 drawn cut points x mode in "
     "{save, age, both, every (a round trip before each later event), every-age (round trip + 6 s idle before each later event)}; 3 of 14 generated cases run the shipped library (core, timing, avatars; generator shared with C09) with 1-2 cuts; 2 of 14 run a fixed program with state-dependent system actions (CheckValidFlowExistsAction, CheckFlowDefinedAction, CheckForActiveEventMatchAction, AddFlowsAction / RemoveFlowsAction of a dynamic flow) through the real RuntimeV2_x.process_events over generated histories (also enumerated: all histories of length 3 over five events); 1 of 14 is an LLMRails conversation (vf.pipeline Colang 2.x configuration: rails, dialog flows, `llm continuation`) of 2-4 turns in which the State object is handed back live vs. the JSON state returned by generate() (modes save, both = + 6 s idle per turn, rewind = an older snapshot restored on the same instance). Non-trivial = at the cut at least one child flow is running and a reference-typed or container variable is live "
     "(save), or a finished instance older than the threshold exists (age); distinct by (program, history, cut, mode). "
     "Two further dimensions of the state-machine cases (each drawn for about 1 in 3, labels mixed-* / shared-*): (a) mdict - a dict whose keys are of MIXED kinds "
@@ -32,10 +32,17 @@ RULE = (
     "(b) shared - one helper flow (a dedicated c11note that ends through its last statement and restarts / never ends / aborts / holds an action, or a parameterless generated helper) "
     "ACTIVATED BY two or three extra flows c11act<i> that end in drawn ways (last statement, abort, StopFlow from another flow, `deactivate` of the helper before the last statement, never), "
     "started at drawn positions, plus 0-2 `deactivate <helper>` and 0-1 StopFlow / further `activate` statements at drawn positions of drawn flows (half of these cases in an ageing mode); "
-    "label cut-with-ended-helper-under-running-activator = at a cut a fully deactivated, ended helper instance is still listed as child of a running activator. "
-    "Enumerated: every rich use x 2 positions x every cut x 4 modes; activated flows restarting (single activator); two-activator programs (activator kinds finish / abort / stopped / tidy squared x "
+    "label cut-with-ended-helper-under-running-activator = at a cut a fully deactivated, ended helper instance is still listed as child of a running activator; "
+    "(c) flowref (about 1 in 3; labels flowref-*) - one or two REFERENCES TO FLOWS THAT END, kept in a variable of a drawn flow (mostly main) at a drawn position and dereferenced later: each use owns a flow "
+    "c11calc<i> $x -> $res (parameter, return member, local variable $loc; it ends before its first wait / after one drawn event / sets $res again after that event / aborts after it), obtains the reference "
+    "through `await c11calc<i> V as $fr`, `start ... as $fr`, the flow attribute of a matched flow event (`match $fs.Finished() as $fe` / `match FlowFinished(flow_id=..) as $fe`, Failed for the aborting tail: `$fe.flow`) "
+    "or a copy of the reference in a second variable, waits for 1-2 drawn events and then reads 1-3 drawn members (x / res / loc) in a send, in the script of a started action or in an if condition; optionally one more "
+    "drawn event and a second read of all three members; parameter value from str / int / 0 / list / dict, positional or named call; 2 of 3 of these cases in an ageing mode. Labels cut-with-reference-to-ended-flow = at a cut a "
+    "variable of a running flow holds (directly or as the flow of a kept event) a flow instance that has ended, ended-flow-read-through-reference-after-cut = and the output of such a read appears after that cut. "
+    "Enumerated: every rich use x 2 positions x every cut x 4 modes; flow references (5 ways of obtaining the reference x 4 ways the referenced flow ends x 1-2 waits before the read, member / place of the read / parameter value "
+    "rotating, second read one event later x every cut x two of {age, every-age, both, save}); activated flows restarting (single activator); two-activator programs (activator kinds finish / abort / stopped / tidy squared x "
     "0-2 deactivations by a third flow x helper tails x all orders of the three events x every cut x age, partly every-age); mixed-key dicts (string key first then int / float / bool / None / tuple key, "
-    "controls, every placement x all mixed uses x every cut x save, partly every-age); runtime-leg histories; the C09 families."
+    "controls, every placement x all mixed uses x every cut x save, partly every-age); runtime-leg histories; hand-written families (action reference returned from a flow, orphan action watched by arguments, dict variable as action argument matched by a dict literal, alias list) x their histories x every cut x 4 modes; the C09 families."
 )
 ASSUMPTIONS = [
     "cuts are between events (the only points at which the API hands out a state)",
@@ -44,6 +51,8 @@ ASSUMPTIONS = [
     "the live run is executed once per case (it does not depend on the cut); its outputs from the cut on are compared with the run that is cut there",
     "structural invariants are asserted on the restored state only as far as the state satisfied them before it was saved (what idle clean-up alone leaves behind - e.g. the uid of a discarded helper instance in the child list of its second activator - is C09's subject)",
     "dict keys of a generated mixed-key dict are pairwise different under == (no True next to 1, no 2.0 next to 2); the tuple key is produced with list({..}.items())[0] since Colang has no tuple literal",
+    "reading a finished flow's members through a reference is documented for return members (docs/colang_2/language_reference/working-with-variables-and-expressions.rst, Flow Variable Access: `await user said something as $ref` ... `$ref.transcript`) and `$ref.flow` of a flow event in defining-flows.rst; parameters and local variables are readable the same way in the implementation - the oracle does not depend on what a read yields, both runs execute the same program",
+    "an awaited flow that aborts fails the awaiting flow, so the aborting tail is not combined with `await ... as $ref` (nothing would be read afterwards)",
     "`deactivate X` is the documented statement (docs/colang_2/language_reference/more-on-flows.rst, = send StopFlow(flow_id=X, deactivate=True)); the oracle does not depend on what it does - both runs execute the same program",
 ]
 WALL = {"quick": 170, "thorough": 1500}
@@ -63,6 +72,9 @@ USES = {
     "match-regex": ("rx", "match Ev2(v=$rx)"),
     "action-set-arg": ("s", "start XCustomAction(p=$s) as $axs"),
     "action-nested-arg": ("n", "start XCustomAction(p=$n) as $axn"),
+    # an action started with a dict taken from a flow variable (it travels as AttributeDict, a plain dict after a restore), its Finished
+    # event matched by the action's arguments written as a dict literal (C04-F39)
+    "action-dict-arg-match": (None, '$dd = {"a": 1}\nstart XCustomAction(p=$dd) as $axd\nmatch Ev1()\nmatch XCustomAction(p={"a": 1}).Finished()\nsend OutAD()'),
     # references to received events / started actions kept across a cut and dereferenced afterwards
     "event-ref": (None, "match Ev3() as $evref\nmatch Ev0()\nsend OutE(v=$evref.v)"),
     "action-ref": (None, 'start UtteranceBotAction(script="ref") as $actref\nmatch Ev1()\nsend OutA(s=$actref.start_event_arguments.script)'),
@@ -222,6 +234,107 @@ def _shared(draw, nflows):
     return sh, uses
 
 
+# ------------------------------------------------------------------------------------------------
+# references to FLOWS that ended long ago, dereferenced later (the instance is discarded from the state by the idle clean-up while a
+# variable of a running flow still holds it: its parameters / return members / local variables stay readable through the reference)
+#   case["flowref"] = {"uses": [{"via": how the reference is obtained, "tail": how c11calc<i> ends, "tev": event of its wait,
+#                                "arg": parameter value, "named": call style, "gap": [events waited for before the first read],
+#                                "read": [members], "how": where the read happens, "again": event before a second read | None}, ...]}
+#   use i lives in a drawn flow at a drawn position (uses entry "fref-<i>") and owns the flow c11calc<i> $x -> $res
+FREF_VIA = {
+    # how the reference reaches the variable -> (statements, path of the flow reference); {C} = the call, {F} = Finished | Failed
+    "await": (["await {C} as $fr{i}"], "$fr{i}"),
+    "start": (["start {C} as $fr{i}"], "$fr{i}"),
+    "event": (["start {C} as $fs{i}", "match $fs{i}.{F}() as $fe{i}"], "$fe{i}.flow"),  # the flow attribute of a matched flow event
+    "internal": (["start {C} as $fs{i}", 'match Flow{F}(flow_id="c11calc{i}") as $fe{i}'], "$fe{i}.flow"),
+    "copy": (["start {C} as $fs{i}", "$fr{i} = $fs{i}"], "$fr{i}"),  # a second variable holding the same reference
+}
+FREF_TAILS = ["now", "wait", "late", "abort"]  # ends before its first wait | after one event | sets $res after the event | aborts after it
+FREF_MEMBERS = ["x", "res", "loc"]  # parameter, return member, local variable
+FREF_ARGS = ["ab", 3, 0, [1, "b"], {"k": 1}]
+FREF_HOW = ["send", "action", "if"]
+
+
+def _fref_flow(i, u):
+    body = ['$loc = [$x, "loc"]', '$res = "{$x}-{$x}"']
+    if u["tail"] != "now":
+        body += [f"match Ev{u['tev']}()"]
+    if u["tail"] == "late":
+        body += ['$res = "late {$x}"']
+    if u["tail"] == "abort":
+        body += ["abort"]
+    # (co2.render writes the parameter list verbatim after the name: the return member is declared through it)
+    return {"name": f"c11calc{i}", "params": ["x -> $res"], "loop": None, "body": [{"k": "raw", "text": ln} for ln in body]}
+
+
+def _fref_read(how, path, members, i, n):
+    if how == "action":
+        return f'start UtteranceBotAction(script="fref{i} ' + " ".join("{" + f"{path}.{m}" + "}" for m in members) + '")'
+    if how == "if":
+        return f"if {path}.{members[0]}\n  send OutFRyes{i}(n={n})\nelse\n  send OutFRno{i}(n={n})"
+    return f"send OutFR{i}(n={n}, " + ", ".join(f"{m}={path}.{m}" for m in members) + ")"
+
+
+def _fref_tables(fr):
+    """(extra flows, {use name: statement text}) of a flow-reference overlay."""
+    flows, tab = [], {}
+    for i, u in enumerate(fr["uses"]):
+        flows.append(_fref_flow(i, u))
+        lines, path = FREF_VIA[u["via"]]
+        call = f"c11calc{i}(x={smh.lit(u['arg'])})" if u.get("named") else f"c11calc{i} {smh.lit(u['arg'])}"
+        sub = lambda t: t.replace("{C}", call).replace("{F}", "Failed" if u["tail"] == "abort" else "Finished").replace("{i}", str(i))  # noqa: E731
+        text = [sub(ln) for ln in lines] + [f"match Ev{g}()" for g in u["gap"]] + [_fref_read(u["how"], sub(path), u["read"], i, 1)]
+        if u.get("again") is not None:
+            text += [f"match Ev{u['again']}()", _fref_read("send", sub(path), FREF_MEMBERS, i, 2)]
+        tab[f"fref-{i}"] = "\n".join(text)
+    return flows, tab
+
+
+@st.composite
+def _flowref(draw, nflows):
+    """Overlay + the uses that place it in the generated program: (flowref, uses)."""
+    ev = st.integers(0, co2.EVENTS - 1)
+    main = nflows - 1
+    where = st.sampled_from([main, main, main] + list(range(nflows)))
+    fr, uses = {"uses": []}, []
+    for i in range(draw(st.sampled_from([1, 1, 2]))):
+        via = draw(st.sampled_from(sorted(FREF_VIA)))
+        # an awaited flow that aborts fails the awaiting flow: nothing would be read afterwards
+        tail = draw(st.sampled_from(["now", "now", "wait", "late"] + ([] if via == "await" else ["abort"])))
+        fr["uses"].append(
+            {
+                "via": via,
+                "tail": tail,
+                "tev": draw(ev),
+                "arg": draw(st.sampled_from(FREF_ARGS)),
+                "named": draw(st.integers(0, 3)) == 0,
+                "gap": draw(st.lists(ev, min_size=1, max_size=2)),
+                "read": draw(st.lists(st.sampled_from(FREF_MEMBERS), min_size=1, max_size=3, unique=True)),
+                "how": draw(st.sampled_from(["send", "send"] + FREF_HOW)),
+                "again": draw(st.sampled_from([None, None, 0, 1, 2, 3])),
+            }
+        )
+        uses.append([draw(where), draw(st.sampled_from([0, 0, 1, 2, 3, 5, 8])), f"fref-{i}"])
+    return fr, uses
+
+
+def _flowref_cases():
+    """A reference to a flow that ended, read one or two events later: every way of obtaining the reference x every way the flow ends x
+    1-2 waits before the read (member and place of the read rotate) x every cut x {age, every-age, both, save}."""
+    n = 0
+    for via in sorted(FREF_VIA):
+        for tail in FREF_TAILS:
+            if via == "await" and tail == "abort":
+                continue
+            for gap in ([0], [0, 2]):
+                u = {"via": via, "tail": tail, "tev": 1, "arg": FREF_ARGS[n % len(FREF_ARGS)], "named": n % 4 == 3, "gap": gap, "read": [FREF_MEMBERS[n % 3]], "how": FREF_HOW[(n // 3) % 3], "again": 3}
+                n += 1
+                fr = {"uses": [u]}
+                prog = {"flows": [_raw_flow("main", ["match Never()"])]}
+                hist = [["ev", 1, None], ["ev", 0, None], ["ev", 2, None], ["ev", 3, None], ["ev", 0, None]]
+                for mode in ("age", "every-age") if n % 2 else ("both", "save" if n % 4 == 0 else "age"):
+                    yield {"prog": prog, "family": "flow-reference/" + via + "-" + tail, "flowref": fr, "hist": hist, "uses": [[0, 0, "fref-0"]], "cuts": list(range(1, len(hist))), "mode": mode, "choices": []}
+
 
 def budget(tier):
     return 4000 if tier == "quick" else 40000
@@ -238,7 +351,7 @@ def _case(draw):
             uses.append([fi, draw(st.integers(0, 8)), draw(st.sampled_from(sorted(USES)))])
     cuts = draw(st.lists(st.integers(1, len(hist) - 1), min_size=1, max_size=3, unique=True))
     case = {"prog": prog, "hist": hist, "uses": uses, "cuts": sorted(cuts), "mode": draw(st.sampled_from(MODES)), "choices": draw(st.lists(st.integers(0, 3), max_size=3))}
-    extra = draw(st.sampled_from(["", "", "", "mdict", "mdict", "shared", "shared", "shared", "mdict+shared"]))
+    extra = draw(st.sampled_from(["", "", "", "mdict", "mdict", "shared", "shared", "shared", "mdict+shared", "flowref", "flowref", "flowref", "flowref+shared"]))
     if "mdict" in extra:
         # a dict variable with keys of mixed kinds, looked up / sent / changed at drawn positions
         case["mdict"] = draw(_mdict())
@@ -250,6 +363,12 @@ def _case(draw):
         uses.extend(more)
         if draw(st.booleans()):
             case["mode"] = draw(st.sampled_from(["age", "both", "every-age"]))
+    if "flowref" in extra:
+        # one or two references to flows that end, kept in a variable and read one or two events (or more) later
+        case["flowref"], more = draw(_flowref(len(prog["flows"])))
+        uses.extend(more)
+        if draw(st.integers(0, 2)) > 0:
+            case["mode"] = draw(st.sampled_from(["age", "age", "both", "every-age", "every-age"]))
     return case
 
 
@@ -534,6 +653,7 @@ def enumerate_cases(tier):
         for pos in (3, 7):
             for mode in ("save", "age", "both", "every-age"):
                 yield {"prog": prog, "hist": base_hist, "uses": [[1, pos, use]], "cuts": list(range(1, len(base_hist))), "mode": mode, "choices": []}
+    yield from _flowref_cases()
     yield from _activation_cases()
     yield from _two_activator_cases()
     yield from _mixed_cases()
@@ -585,6 +705,19 @@ flow main
   match Never()
 """,
         [[["ev", 0, None], ["ev", 1, None], ["finished", 0]], [["ev", 0, None], ["finished", 0], ["ev", 1, None]], [["ev", 0, None], ["ev", 1, None], ["ev", 1, None], ["finished", 0], ["ev", 0, None]]],
+    ),
+    # a dict from a flow variable as action argument (an AttributeDict while live, a plain dict after a restore); the action's
+    # Finished event is matched through the same arguments written as a dict literal (C04-F39)
+    "dict-arg-action-matched-by-literal": (
+        """flow main
+  $dd = {"a": 1}
+  start XCustomAction(p=$dd) as $axd
+  match Ev1()
+  match XCustomAction(p={"a": 1}).Finished()
+  send OutAD()
+  match Never()
+""",
+        [[["ev", 1, None], ["finished", 0], ["ev", 0, None]], [["ev", 0, None], ["ev", 1, None], ["finished", 0], ["ev", 0, None]], [["finished", 0], ["ev", 1, None], ["ev", 0, None]]],
     ),
     # one list reachable through two variables, changed in place after the cut (C11-F25, open)
     "alias-list": (
@@ -725,7 +858,7 @@ def build(case):
         case = dict(case, uses=[[u[0] + 1, u[1], u[2]] for u in case["uses"]])
     uses_tab = USES
     mixed_pro = []
-    if case.get("mdict") or case.get("shared"):
+    if case.get("mdict") or case.get("shared") or case.get("flowref"):
         uses_tab = dict(USES)
         if case.get("mdict"):
             mixed_pro, tab = _mixed_tables(case["mdict"])
@@ -736,6 +869,11 @@ def build(case):
             target = cands[sh["target"] % len(cands)] if sh["target"] >= 0 and cands else "c11note"
             uses_tab.update({k: (None, v) for k, v in _shared_uses(sh, target).items()})
             extra_flows = _shared_flows(sh, target)
+            prog["flows"] = extra_flows + prog["flows"]
+            case = dict(case, uses=[[u[0] + len(extra_flows), u[1], u[2]] for u in case["uses"]])
+        if case.get("flowref"):
+            extra_flows, tab = _fref_tables(case["flowref"])
+            uses_tab.update({k: (None, v) for k, v in tab.items()})
             prog["flows"] = extra_flows + prog["flows"]
             case = dict(case, uses=[[u[0] + len(extra_flows), u[1], u[2]] for u in case["uses"]])
     needed = sorted({uses_tab[u[2]][0] for u in case["uses"]} - {None})
@@ -789,6 +927,8 @@ def _run(text, case, cut, mode):
                     for uid in fs.child_flow_uids
                     if uid in st_.flow_states and st_.flow_states[uid].activated == 0 and st_.flow_states[uid].parent_uid != fs.uid and st_.flow_states[uid].status.value in ("finished", "stopped")
                 )
+                # references (variables of running flows, directly or as the flow of a kept flow event) to flow instances that have ended
+                info["held_ended_flows"] = sum(1 for fs in st_.flow_states.values() if smh.sm().is_active_flow(fs) for v in fs.context.values() if _ended_flow_ref(v))
                 info["ref_vars"] = sum(1 for fs in st_.flow_states.values() if smh.sm().is_active_flow(fs) for v in fs.context.values() if not isinstance(v, (str, int, float, bool, type(None))))
             if mode in ("save", "both", "every", "every-age"):
                 from nemoguardrails.colang.v2_x.runtime.serialization import json_to_state, state_to_json
@@ -820,6 +960,19 @@ def _run(text, case, cut, mode):
         if i >= cut:
             outs.append(out)
     return outs, info
+
+
+def _ended_flow_ref(v):
+    from nemoguardrails.colang.v2_x.runtime.flows import FlowState, InternalEvent
+
+    if isinstance(v, InternalEvent):
+        v = v.flow
+    return isinstance(v, FlowState) and v.status.value in ("finished", "stopped")
+
+
+def _fref_output(steps):
+    """Some step shows the result of a read through a flow reference (OutFR* events, `fref<i> ...` utterances)."""
+    return any(str(e.get("type", "")).startswith("OutFR") or str(e.get("script", "")).startswith("fref") for out in steps for e in out or [])
 
 
 def _canon_steps(steps):
@@ -872,7 +1025,13 @@ def prop(case):
     if case.get("shared"):
         labels += ["shared-activation", "shared-target-" + ("generated" if case["shared"]["target"] >= 0 else "dedicated")]
         labels += sorted({"shared-activator-" + a["kind"] for a in case["shared"]["acts"]})
+    if case.get("flowref"):
+        labels.append("flow-reference")
+        for u in case["flowref"]["uses"]:
+            labels += ["flowref-via-" + u["via"], "flowref-tail-" + u["tail"], "flowref-how-" + u["how"], f"flowref-waits-{len(u['gap'])}"] + ["flowref-read-" + m for m in u["read"]]
+        labels = sorted(set(labels), key=labels.index)
     ended_under = False
+    held_ended = read_after = False
     nt = False
     compared = 0
     live_all = None
@@ -898,8 +1057,15 @@ def prop(case):
         if case["mode"] in ("age", "both", "every-age") and info.get("done_instances", 0) >= 1:
             nt = True
         ended_under = ended_under or info.get("ended_under_activator", 0) >= 1
+        if info.get("held_ended_flows", 0) >= 1:
+            held_ended = True
+            read_after = read_after or (bool(case.get("flowref")) and _fref_output(other))
     if any(x for x in [case["uses"]]):
         labels.append("rich-vars")
     if ended_under:
         labels.append("cut-with-ended-helper-under-running-activator")
+    if held_ended:
+        labels.append("cut-with-reference-to-ended-flow")
+    if read_after:
+        labels.append("ended-flow-read-through-reference-after-cut")
     return ok(nt=nt, labels=labels, view={"program": text, "history": case["hist"][:10], "cuts": case["cuts"], "mode": case["mode"]}, counters={"cut_points_compared": compared})
